@@ -99,10 +99,25 @@ def alias_pass(run: Run, pkg: Package) -> None:
     a copy) is one object appended many times - after the loop every entry of the list shows the values of the last iteration.
     (Hoisting a per-frame work array out of the frame loop is the usual way to get there.)"""
     n = 0
+    # like the other shared rules (statelib), this one speaks for a property only inside the files the property is anchored in;
+    # C18 (all routines) keeps the whole set
+    anchor_files = None
+    if run.pid != "C18":
+        try:
+            import json, os
+            here = os.path.dirname(os.path.dirname(os.path.dirname(os.path.abspath(__file__))))
+            for ln in open(os.path.join(here, "properties.jsonl"), "r", encoding="utf-8"):
+                d = json.loads(ln)
+                if d.get("id") == run.pid:
+                    anchor_files = set(d.get("anchors", {}).get("files", [])) or None
+        except Exception:  # noqa
+            anchor_files = None
     for fq in sorted(run.functions):
         try:
             fi = pkg.func(fq)
         except Exception:  # noqa
+            continue
+        if anchor_files is not None and fi.relpath not in anchor_files:
             continue
         it = interp(pkg, fi.qual)
         allocs = {}
